@@ -81,6 +81,8 @@ pub const ALL_REPRS: [ModRepr; 5] = [
 #[derive(Clone, Debug, PartialEq)]
 pub enum LazerExtra {
     Classic,
+    /// Classic with `no_slider_head_accuracy` set explicitly (osu!; a plain Classic mod in the other modes)
+    ClassicSetting(bool),
     /// osu! mirror with reflection setting (None, "1", "2")
     Mirror(Option<&'static str>),
     HoldOff,
@@ -127,6 +129,13 @@ impl ModsSpec {
         for e in &self.extras {
             match e {
                 LazerExtra::Classic => mods.insert(GameMod::new("CL", mm)),
+                LazerExtra::ClassicSetting(b) => {
+                    let mut m = GameMod::new("CL", mm);
+                    if let GameMod::ClassicOsu(cl) = &mut m {
+                        cl.no_slider_head_accuracy = Some(*b);
+                    }
+                    mods.insert(m);
+                }
                 LazerExtra::Mirror(r) => {
                     let mut m = GameMod::new("MR", mm);
                     if let GameMod::MirrorOsu(mr) = &mut m {
@@ -245,6 +254,11 @@ impl ModsSpec {
         } else {
             &[]
         }
+    }
+
+    /// Whether a Classic mod (with or without explicit setting) takes effect for `mode`.
+    pub fn has_classic(&self, mode: GameMode) -> bool {
+        self.effective_extras(mode).iter().any(|e| matches!(e, LazerExtra::Classic | LazerExtra::ClassicSetting(_)))
     }
 
     pub fn is_nomod(&self) -> bool {
@@ -398,6 +412,10 @@ pub fn gen_mod_bits(t: &mut Tape, key_mods: bool) -> u32 {
     }
     if key_mods && t.chance(1, 3) {
         bits |= *t.pick(&KEY_BITS);
+        // several key mods at once cannot be selected in the game but can be expressed in every representation
+        if t.chance(1, 8) {
+            bits |= *t.pick(&KEY_BITS);
+        }
     }
     bits
 }
@@ -428,7 +446,7 @@ pub fn gen_diff(t: &mut Tape, p: &DiffProfile, mode: GameMode) -> DiffSpec {
     let mut extras = Vec::new();
     if repr == ModRepr::Lazer && p.lazer_mods {
         if t.chance(1, 4) {
-            extras.push(LazerExtra::Classic);
+            extras.push(if t.chance(1, 3) { LazerExtra::ClassicSetting(t.coin()) } else { LazerExtra::Classic });
         }
         if t.chance(1, 6) {
             extras.push(LazerExtra::Mirror(*t.pick(&[None, Some("1"), Some("2"), Some("0")])));
@@ -445,7 +463,12 @@ pub fn gen_diff(t: &mut Tape, p: &DiffProfile, mode: GameMode) -> DiffSpec {
             }
         }
         if matches!(mode, GameMode::Mania | GameMode::Taiko) && t.chance(1, 5) {
-            extras.push(LazerExtra::Random(if t.chance(1, 4) { None } else { Some(t.range(0, 100_000) as f64) }));
+            extras.push(LazerExtra::Random(match t.weighted(&[6, 2, 1]) {
+                0 => Some(t.range(0, 100_000) as f64),
+                1 => None,
+                // the seed is an f64 that the library casts to i32 (saturating): the ends of that range and beyond
+                _ => Some(*t.pick(&[-1.0, 2147483647.0, -2147483648.0, -1e10, 4e9, 0.5, -2147483647.0])),
+            }));
         }
         if t.chance(1, 6) {
             let v = |t: &mut Tape| if t.coin() { Some((t.range(0, 110) as f64) / 10.0) } else { None };
@@ -459,7 +482,7 @@ pub fn gen_diff(t: &mut Tape, p: &DiffProfile, mode: GameMode) -> DiffSpec {
             };
             extras.push(LazerExtra::Rate(r));
         }
-        if t.chance(1, 3) {
+        if t.chance(1, 2) {
             extras.push(LazerExtra::Acronym(*t.pick(&LAZER_ACRONYMS)));
         }
     }
@@ -539,6 +562,7 @@ impl LazerExtra {
     pub fn to_json(&self) -> Value {
         match self {
             Self::Classic => json!(["Classic"]),
+            Self::ClassicSetting(b) => json!(["ClassicSetting", b]),
             Self::Mirror(r) => json!(["Mirror", r]),
             Self::HoldOff => json!(["HoldOff"]),
             Self::Invert => json!(["Invert"]),
@@ -556,6 +580,7 @@ impl LazerExtra {
         let a = v.as_array()?;
         Some(match a.first()?.as_str()? {
             "Classic" => Self::Classic,
+            "ClassicSetting" => Self::ClassicSetting(a.get(1).and_then(Value::as_bool).unwrap_or(false)),
             "Mirror" => Self::Mirror(match a.get(1).and_then(Value::as_str) {
                 None => None,
                 Some("1") => Some("1"),
